@@ -387,9 +387,7 @@ impl<'a> Gen<'a> {
                     _ => json!(i64::MAX),
                 };
                 q.insert(idf[which].into(), big);
-                if !q.contains_key(idf[1]) {
-                    q.insert(idf[1].into(), json!(0));
-                }
+                // an out-of-range DESTINATION of a missing destination field cannot happen: `which` = 1 sets it
                 ("oor_id".into(), true)
             }
             4 => {
@@ -550,9 +548,35 @@ fn gen_case(r: &mut Rng, cat: &[AppCfg], st: &mut Stream) -> Case {
         }
         qs.push(Value::Object(q));
     }
+    // the class of the listed known finding (yens, effective k >= 2: each such call panics or hangs for the whole
+    // watchdog period) is covered by the corpus witnesses; random cases enter it only rarely
+    if let Alg::Yens { k, .. } = &cfg.alg {
+        for q in qs.iter_mut() {
+            let eff = q.get("k").and_then(|x| x.as_u64()).unwrap_or(*k as u64);
+            if eff >= 2 && !r.chance(1, 8) {
+                q.as_object_mut().unwrap().insert("k".into(), json!(1));
+            }
+        }
+    }
+    // now and then a batch element that is not an object
+    if nq > 0 && r.chance(1, 6) {
+        let pos = r.below(qs.len() as u64 + 1) as usize;
+        let junk = match r.below(8) {
+            0 => json!(5),
+            1 => Value::Null,
+            2 => json!("s"),
+            3 => json!([]),
+            4 => json!([qs[0].clone()]),
+            5 => json!(false),
+            6 => json!([[1], {"a": 1}]),
+            _ => json!(-2.5),
+        };
+        qs.insert(pos, junk);
+        st.count("query:nonobject");
+    }
     // the document offered as the batch
     let user = match r.below(12) {
-        0 if nq == 1 => qs[0].clone(),
+        0 if qs.len() == 1 && qs[0].is_object() => qs[0].clone(),
         1 => json!({ "queries": qs }),
         _ => Value::Array(qs),
     };
@@ -641,11 +665,13 @@ fn underlying_route(apps: &mut Apps, cfg: &AppCfg, q: &Value, timeout: u64) -> O
     }
 }
 
-fn run_case(st: &mut Stream, apps: &mut Apps, case: &Case, timeout: u64) {
+/// returns true when the call did not return although the case is outside the known-finding class: the abandoned
+/// thread may allocate without bound, so the caller stops the stream right away
+fn run_case(st: &mut Stream, apps: &mut Apps, case: &Case, timeout: u64) -> bool {
     let id = st.next_id();
     let cfg = &case.cfg;
-    let desc = json!({"id": id, "family": case.family, "cfg_id": case.cfg_id, "cfg": cfg_to_json(cfg), "user": case.user,
-                      "must_err": case.must_err, "override": case.over});
+    let desc = json!({"id": id, "family": case.family, "user": case.user, "must_err": case.must_err, "override": case.over,
+                      "cfg_id": case.cfg_id, "cfg": cfg_to_json(cfg)});
     st.count(&format!("family:{}", case.family));
     st.count(&format!("cfg:{:02}", case.cfg_id));
     let (app, log, _idxs) = match apps.get(cfg) {
@@ -654,7 +680,7 @@ fn run_case(st: &mut Stream, apps: &mut Apps, case: &Case, timeout: u64) {
             // a configuration of the catalogue that cannot be built is a harness bug: make it loud
             st.case(vec![format!("line \"M\" {} \"configuration builds\"", id), format!("line \"S\" {} \"configuration builds\"", id)],
                     vec![format!("I {} BUILD-FAILED {}", id, e.replace('\n', " "))], desc);
-            return;
+            return false;
         }
     };
     log.lock().unwrap().clear();
@@ -756,6 +782,9 @@ fn run_case(st: &mut Stream, apps: &mut Apps, case: &Case, timeout: u64) {
     let persist_note = if cfg.persist { "" } else { "" };
     let _ = persist_note;
     st.case(vec![m_term, s_term], vec![format!("I {} {}", id, i_payload)], desc);
+    let any_k = yens_k.is_some()
+        && case.user.as_array().map(|a| a.iter().any(|q| q.get("k").and_then(|k| k.as_u64()).unwrap_or(yens_k.unwrap() as u64) >= 2)).unwrap_or(false);
+    matches!(outcome, RunOutcome::Hang) && !any_k
 }
 
 // ------------------------------------------------------------------------------------------ deterministic families
@@ -833,6 +862,11 @@ fn boundary(cat: &[AppCfg]) -> Vec<Case> {
         }
         v.push(mk(cfg_id, json!([{"tag": "t0", "origin_x": -105.0, "origin_y": 39.7, "destination_x": -104.99}]), &["t0"], "coordinates"));
         v.push(mk(cfg_id, json!([{"tag": "t0", "origin_y": 39.7}]), &["t0"], "coordinates"));
+        for f in ["origin_x", "origin_y", "destination_x", "destination_y"] {
+            let mut q = cq(json!(-105.0), json!(39.7), json!(-104.99), json!(39.71));
+            q.as_object_mut().unwrap().remove(f);
+            v.push(mk(cfg_id, json!([q, {"tag": "t1", "origin_x": -104.99, "origin_y": 39.71, "destination_x": -105.0, "destination_y": 39.7}]), &["t0"], "delete_field"));
+        }
         v.push(mk(cfg_id, json!([cq(json!(-105.0), json!(39.7), json!(-105.0), json!(39.7))]), &[], "same_origin_destination"));
     }
     // ---- grid sections
@@ -887,6 +921,24 @@ fn boundary(cat: &[AppCfg]) -> Vec<Case> {
             v.push(mk(10, json!([{"tag": "t0", "origin_vertex": 0, "destination_vertex": 8, "k": k}]), &[], "ksp_k"));
         }
     }
+    // ---- queries that are not JSON objects (scalars, null, arrays): one error response echoing the query
+    {
+        let good1 = json!({"tag": "t1", "origin_vertex": 0, "destination_vertex": 8, "w": 1, "cat": "a"});
+        for cfg_id in [0usize, 2, 7, 3, 6, 5] {
+            for q in [json!(5), Value::Null, json!("s"), json!(true), json!(1.5), json!([]), json!([[]]), json!([5]), json!({"tag": "t9"}),
+                      json!([{"tag": "t0", "origin_vertex": 0, "destination_vertex": 8, "w": 1, "cat": "a"}]),
+                      json!([{"tag": "t0", "origin_vertex": 0, "destination_vertex": 8}, {"tag": "t2", "origin_vertex": 1, "destination_vertex": 2}])] {
+                v.push(mk(cfg_id, json!([q.clone(), good1.clone()]), &[], "nonobject_query"));
+            }
+            v.push(mk(cfg_id, json!([5, 5, null, good1.clone(), 5]), &[], "nonobject_query"));
+        }
+        // out-of-range origin without a destination (tree search)
+        for cfg_id in [0usize, 1, 2, 11] {
+            for big in [json!(9), json!(99), json!(u64::MAX)] {
+                v.push(mk(cfg_id, json!([{"tag": "t0", "origin_vertex": big}, good1.clone()]), &["t0"], "oor_origin_without_destination"));
+            }
+        }
+    }
     // ---- run-configuration override
     for p in [1, 2, 7] {
         let mut c = mk(5, json!([{"tag": "t0", "origin_vertex": 0, "destination_vertex": 8, "query_weight_estimate": 3}, {"tag": "t1", "origin_vertex": 1, "destination_vertex": 7, "query_weight_estimate": 1},
@@ -933,21 +985,8 @@ fn pending_cases(cat: &[AppCfg], only: &str) -> Vec<Case> {
         family: fam.into(),
         over: None,
     };
-    let good = json!({"tag": "t1", "origin_vertex": 0, "destination_vertex": 8, "w": 1, "cat": "a"});
-    if only == "K_nonobject_query_not_echoed" {
-        for cfg_id in [0usize, 2, 7, 3, 6] {
-            for q in [json!(5), Value::Null, json!("s"), json!(true), json!(1.5), json!([]), json!([[]]), json!([5]), json!([{"tag": "t0", "origin_vertex": 0, "destination_vertex": 8, "w": 1, "cat": "a"}])] {
-                v.push(mk(cfg_id, json!([q, good.clone()]), &[], "nonobject_query"));
-            }
-        }
-    }
-    if only == "K_oor_origin_without_destination" {
-        for cfg_id in [0usize, 1, 2, 11] {
-            for big in [json!(9), json!(99), json!(u64::MAX)] {
-                v.push(mk(cfg_id, json!([{"tag": "t0", "origin_vertex": big}, good.clone()]), &["t0"], "oor_origin_without_destination"));
-            }
-        }
-    }
+    // (no class is pending: D-NONOBJ-ECHO, O-OOR-TREE and the array-typed query were fixed in /repo)
+    let _ = (&mk, only);
     v
 }
 
@@ -979,24 +1018,82 @@ fn main() {
     }
     if a.stream == "pending" {
         for case in pending_cases(&cat, &only) {
-            run_case(&mut st, &mut apps, &case, timeout);
+            if run_case(&mut st, &mut apps, &case, timeout) {
+                break;
+            }
         }
         st.finish();
         std::process::exit(0);
     }
-    // corpus first: witnesses of the listed known finding, then the deterministic families
-    for case in yens_cases(&cat, wrap_profile) {
-        run_case(&mut st, &mut apps, &case, timeout.min(4_000));
+    if a.stream == "dump-corpus" {
+        // writes the corpus files (run once by hand; the files are part of /verif/corpus/C12)
+        let dir = a.out.clone();
+        std::fs::create_dir_all(&dir).unwrap();
+        let mut named: Vec<(String, Case)> = yens_cases(&cat, false).into_iter().map(|c| (c.family.clone(), c)).collect();
+        let mkc = |cfg_id: usize, user: Value, must: &[&str], fam: &str| Case { cfg_id, cfg: cat[cfg_id].clone(), user, must_err: must.iter().map(|s| s.to_string()).collect(), family: fam.into(), over: None };
+        named.push(("empty_batch".into(), mkc(0, json!([]), &[], "corpus_empty_batch")));
+        named.push(("grid_empty_object".into(), mkc(2, json!([{"tag": "t0", "origin_vertex": 0, "destination_vertex": 8, "grid_search": {}}]), &[], "corpus_grid_empty_object")));
+        named.push(("grid_empty_array".into(), mkc(2, json!([{"tag": "t0", "origin_vertex": 0, "destination_vertex": 8, "grid_search": {"a": []}}]), &[], "corpus_grid_empty_array")));
+        named.push(("inject_non_object".into(), mkc(3, json!([5, {"tag": "t1", "origin_vertex": 0, "destination_vertex": 8}]), &[], "corpus_inject_non_object")));
+        named.push(("weight_estimate_string".into(), mkc(0, json!([{"tag": "t0", "origin_vertex": 0, "destination_vertex": 8, "query_weight_estimate": "abc"}, {"tag": "t1", "origin_vertex": 0, "destination_vertex": 8}]), &[], "corpus_weight_estimate_string")));
+        named.push(("nonobject_query".into(), mkc(0, json!([5, null, "s", {"tag": "t1", "origin_vertex": 0, "destination_vertex": 8}]), &[], "corpus_nonobject_query")));
+        named.push(("array_query".into(), mkc(2, json!([[], {"tag": "t1", "origin_vertex": 0, "destination_vertex": 8}, [[]], [{"tag": "t2", "origin_vertex": 0, "destination_vertex": 8}]]), &[], "corpus_array_query")));
+        named.push(("oor_origin_without_destination".into(), mkc(0, json!([{"tag": "t0", "origin_vertex": 99}, {"tag": "t1", "origin_vertex": 0, "destination_vertex": 8}]), &["t0"], "corpus_oor_origin")));
+        named.push(("grid_child_fails_matching".into(), mkc(19, json!([{"tag": "t0", "origin_x": -105.0, "origin_y": 39.7, "grid_search": {"destination_x": [-104.99, 0.0, -104.98], "destination_y": [39.7]}}, {"tag": "t1", "origin_x": -105.0, "origin_y": 39.7, "destination_x": -104.98, "destination_y": 39.72}]), &[], "corpus_grid_child_fails")));
+        for (i, (name, c)) in named.iter().enumerate() {
+            let d = json!({"family": c.family, "cfg_id": c.cfg_id, "cfg": cfg_to_json(&c.cfg), "user": c.user, "must_err": c.must_err, "override": c.over});
+            std::fs::write(dir.join(format!("{:02}_{}.json", i, name)), serde_json::to_string_pretty(&d).unwrap()).unwrap();
+        }
+        std::process::exit(0);
     }
-    for case in boundary(&cat) {
-        run_case(&mut st, &mut apps, &case, timeout);
+    // corpus first (witnesses of the listed known finding K_yens_k_ge_2 and of the fixed defects), then the
+    // deterministic families, then random cases
+    let mut stop = false;
+    let corpus_dir = a.extra.iter().position(|x| x == "--corpus").and_then(|i| a.extra.get(i + 1)).cloned();
+    if let Some(dir) = corpus_dir {
+        let mut files: Vec<_> = std::fs::read_dir(&dir).map(|d| d.filter_map(|e| e.ok()).map(|e| e.path()).collect()).unwrap_or_default();
+        files.sort();
+        for f in files.iter().filter(|f| f.extension().map(|e| e == "json").unwrap_or(false)) {
+            let c: Value = serde_json::from_str(&std::fs::read_to_string(f).unwrap()).unwrap();
+            let fam = c["family"].as_str().unwrap_or("corpus").to_string();
+            // without overflow checks the one-edge Yen's witness loops ~2^64 times while growing `accepted`: skipped there
+            if wrap_profile && fam.starts_with("yens_one_edge") {
+                continue;
+            }
+            let case = Case {
+                cfg_id: c["cfg_id"].as_u64().unwrap_or(0) as usize,
+                cfg: cfg_from_json(&c["cfg"]),
+                user: c["user"].clone(),
+                must_err: serde_json::from_value(c["must_err"].clone()).unwrap_or_default(),
+                family: fam.clone(),
+                over: if c["override"].is_null() { None } else { Some(c["override"].clone()) },
+            };
+            if run_case(&mut st, &mut apps, &case, if fam.starts_with("yens") { timeout.min(4_000) } else { timeout }) {
+                stop = true;
+                break;
+            }
+        }
+    } else {
+        for case in yens_cases(&cat, wrap_profile) {
+            run_case(&mut st, &mut apps, &case, timeout.min(4_000));
+        }
     }
-    if !boundary_only {
+    if !stop {
+        for case in boundary(&cat) {
+            if run_case(&mut st, &mut apps, &case, timeout) {
+                stop = true;
+                break;
+            }
+        }
+    }
+    if !boundary_only && !stop {
         let mut rng = Rng::new(a.seed);
         while st.next_id() < a.n {
             let mut r = rng.fork();
             let case = gen_case(&mut r, &cat, &mut st);
-            run_case(&mut st, &mut apps, &case, timeout);
+            if run_case(&mut st, &mut apps, &case, timeout) {
+                break;
+            }
         }
     }
     st.finish();
